@@ -1,5 +1,9 @@
-"""Certificate generator for Props/C06Front (run by hand when the English date regexes or the contract layouts change:
-`cd /verif/harness && /venv/bin/python -m lib.datefrontcert`; needs the compiled driver).
+"""Certificate generator for Props/C06Front and Props/C06Front<Cul> (run by hand when the date regexes of a culture or the
+contract layouts change: `cd /verif/harness && /venv/bin/python -m lib.datefrontcert [culture …]`, default en-us; needs the
+compiled driver).  Other cultures than English (es-es, fr-fr, pt-br, de-de; es-mx shares the es-es files): driver op
+`dfc.abs <culture>`, Latin-1 reference tables, the day group may extend over the literal characters after the day token
+(`dext`: German `5.`, French `1er`), a `{d1er}` layout is certified for day 1 only; output
+lean/RTV/Lemmas/DateFrontEv<Cul><N>.lean + DateFrontEv<Cul>All.lean over Lemmas/DateFrontCoverX (`LayoutFactsL`).
 
 For every English layout L of contracts/C06.json and every regex j up to the regex k that accepts L's dates, it looks for
 the COARSEST partition of the years 1900..2099, the months 1..12 and the days 1..31 such that the symbolic evaluation of
@@ -24,9 +28,12 @@ def ordinal(d):
     return str(d) + ('th' if 11 <= d % 100 <= 13 else {1: 'st', 2: 'nd', 3: 'rd'}.get(d % 10, 'th'))
 
 
-def load():
+SUFFIX = {'en-us': 'En', 'es-es': 'Es', 'fr-fr': 'Fr', 'pt-br': 'Pt', 'de-de': 'De', 'it-it': 'It', 'nl-nl': 'Nl'}
+
+
+def load(culture='en-us'):
     c = json.load(open(os.path.join(common.VERIF, 'contracts', 'C06.json'), encoding='utf-8'))
-    return c, c['months']['en-us'], c['abbr']['en-us']
+    return c, c['months'][culture], c['abbr'].get(culture, [''] * 12)
 
 
 KIND = {'y': 'y', 'm': 'm', 'm02': 'm', 'mon': 'm', 'abbr': 'm', 'd': 'd', 'd02': 'd', 'dord': 'd'}
@@ -37,8 +44,13 @@ def toks(t):
 
 
 class Gen:
-    def __init__(self):
-        self.c, self.mon, self.abbr = load()
+    def __init__(self, culture='en-us'):
+        self.culture = culture
+        self.en = culture == 'en-us'
+        self.c, self.mon, self.abbr = load(culture)
+        if not self.en:
+            from translate import dateregex
+            self.prefix = dateregex.collect(culture)['prefix']
         self.rend = {'y': str, 'm': str, 'm02': lambda v: '%02d' % v, 'd': str, 'd02': lambda v: '%02d' % v,
                      'mon': lambda v: self.mon[v - 1], 'abbr': lambda v: self.abbr[v - 1], 'dord': ordinal}
 
@@ -76,19 +88,25 @@ class Gen:
     def enc(A):
         return ';'.join(' '.join(map(str, p)) for p in A)
 
-    def ok_all(self, L, j, k, Py, Pm, Pd):
+    def op(self, j, A):
+        if self.en:
+            return 'df.abs\t%s\t%s' % (j, self.enc(A))
+        return 'dfc.abs\t%s\t%s\t%s' % (self.culture, j, self.enc(A))
+
+    def ok_all(self, L, j, k, Py, Pm, Pd, dext=0):
         combos = [(cy, cm, cd) for cy in Py for cm in Pm for cd in Pd]
         As = [self.abstext(L, *c) for c in combos]
         if any(a is None for a in As):
             return False
-        outs = common.driver(['df.abs\t%d\t%s' % (j, self.enc(a)) for a in As])
+        outs = common.driver([self.op(j, a) for a in As])
         for c, o in zip(combos, outs):
             if j < k:
                 if o != 'none':
                     return False
             else:
                 sp, n = self.spans(L, *c)
-                want = '0|0|%d|%d:%d|%d:%d|%d:%d|-|-' % (n, sp['y'][0], sp['y'][1], sp['m'][0], sp['m'][1], sp['d'][0], sp['d'][1])
+                want = '0|0|%d|%d:%d|%d:%d|%d:%d|-|-' % (n, sp['y'][0], sp['y'][1], sp['m'][0], sp['m'][1], sp['d'][0],
+                                                         sp['d'][1] + dext)
                 if o != want:
                     return False
         return True
@@ -105,29 +123,104 @@ class Gen:
                 classes.append([v])
         return classes
 
+    # ---- other cultures: rejection start position by start position (Lemmas/DateFrontCoverX `rejPosB`)
+
+    def by_length(self, tok, vals):
+        groups = {}
+        for v in vals:
+            groups.setdefault(len(self.rend[tok](v)), []).append(v)
+        return [groups[n] for n in sorted(groups)]
+
+    def pos_cert(self, L, j, days, tag):
+        """-> (maxLen, tpos, ppos, cost): per start position the cheapest partition (Py, Pm, Pd) on which every attempt of regex j
+        is known and not an accepting match"""
+        mtok = [v for kk, v in L if kk == 'tok' and KIND[v] == 'm'][0]
+        dtok = [v for kk, v in L if kk == 'tok' and KIND[v] == 'd'][0]
+        ycands = [[R_(1900, 2099)], [R_(1900, 1999), R_(2000, 2099)]]
+        mcands = [self.by_length(mtok, R_(1, 12)), [[i] for i in R_(1, 12)]]
+        dcands = [self.by_length(dtok, days), [[i] for i in days]]
+        if len(days) > 1:
+            # middle: same length and same first character
+            mid = {}
+            for v in days:
+                r = self.rend[dtok](v)
+                mid.setdefault((len(r), r[0]), []).append(v)
+            dcands.insert(1, [mid[key] for key in sorted(mid)])
+        combos = [(py, pm, pd) for py in ycands for pm in mcands for pd in dcands]
+        combos.sort(key=lambda c: len(c[0]) * len(c[1]) * len(c[2]))
+        pre = len(self.prefix)
+        maxlen = max(len(self.abstext(L, [2019], [m], [d])) for m in R_(1, 12) for d in days)
+        tpos, ppos = [None] * (maxlen + 1), [None] * (pre + maxlen + 1)
+        cost = 0.0
+        for combo in combos:
+            if all(x is not None for x in tpos + ppos):
+                break
+            texts = [self.abstext(L, cy, cm, cd) for cy in combo[0] for cm in combo[1] for cd in combo[2]]
+            outs = common.driver(['dfc.abspos\t%s\t%d\t%s' % (self.culture, j, self.enc(a)) for a in texts])
+            for which, slots, off in (('T', tpos, 0), ('P', ppos, pre)):
+                for p in range(len(slots)):
+                    if slots[p] is not None:
+                        continue
+                    ok, c = True, 0.0
+                    for a, o in zip(texts, outs):
+                        letters = o.split('|')[0 if which == 'T' else 1]
+                        if p >= len(letters):
+                            continue
+                        if letters[p] not in 'fb':
+                            ok = False
+                            break
+                        c += 1.0 if letters[p] == 'b' else 0.1
+                    if ok:
+                        slots[p] = combo
+                        cost += c + 0.05
+        missing = [('T', p) for p, x in enumerate(tpos) if x is None] + [('P', p) for p, x in enumerate(ppos) if x is None]
+        if missing:
+            raise SystemExit('%s regex %d: no rejection certificate at start positions %s' % (tag, j, missing))
+        cost += 3.0 * len({id(c) for c in tpos + ppos})
+        return maxlen, tpos, ppos, cost
+
     def certificates(self):
-        """-> [(layout index, template, k, [(j, Py, Pm, Pd)])]"""
+        """-> [(layout index, template, k, L, [(j, Py, Pm, Pd)])]; other cultures: also self.info[layout index] =
+        (days, dext) — the days the layout applies to and the literal text after the day token that belongs to the day group"""
         out = []
-        for li, row in enumerate(self.c['layouts']['en-us']):
-            L = toks(row['template'])
-            ans = common.driver(['df.abs\tall\t' + self.enc(self.abstext(L, [2019], [3], [5]))])[0]
+        self.info = {}
+        for li, row in enumerate(self.c['layouts'][self.culture]):
+            tpl = row['template']
+            days = R_(1, 31)
+            if '{d1er}' in tpl:
+                if self.en:
+                    continue
+                tpl, days = tpl.replace('{d1er}', '{d}er'), [1]
+            L = toks(tpl)
+            d0 = 5 if 5 in days else days[0]
+            ans = common.driver([self.op('all', self.abstext(L, [2019], [3], [d0]))])[0]
             if ans in ('none', 'unk'):
-                raise SystemExit('layout %d %s: the front end does not accept 2019-03-05 (%s)' % (li, row['template'], ans))
+                raise SystemExit('layout %d %s: the front end does not accept 2019-03-%02d (%s)' % (li, row['template'], d0, ans))
             k = int(ans.split('|')[0])
+            sp, _ = self.spans(L, [2019], [3], [d0])
+            dend = int(ans.split('|')[6].split(':')[1])
+            dext = dend - sp['d'][1]
+            text = ''.join(chr(p[0]) for p in self.abstext(L, [2019], [3], [d0]))
+            if dext < 0 or (dext and self.en):
+                raise SystemExit('layout %d %s: day group %s does not start on the day token' % (li, row['template'], ans))
+            self.info[li] = (days, text[sp['d'][1]:dend])
             certs = []
             for j in range(k + 1):
-                Py, Pm, Pd = [R_(1900, 1999), R_(2000, 2099)], [[i] for i in R_(1, 12)], [[i] for i in R_(1, 31)]
-                if not self.ok_all(L, j, k, Py, Pm, Pd):
+                if j < k and not self.en:
+                    certs.append((j, 'pos', self.pos_cert(L, j, days, 'layout %d %s' % (li, row['template'])), None))
+                    continue
+                Py, Pm, Pd = [R_(1900, 1999), R_(2000, 2099)], [[i] for i in R_(1, 12)], [[i] for i in days]
+                if not self.ok_all(L, j, k, Py, Pm, Pd, dext):
                     raise SystemExit('layout %d %s regex %d: no certificate at the finest partition' % (li, row['template'], j))
-                Pd = self.greedy(R_(1, 31), lambda c: self.ok_all(L, j, k, Py, Pm, [c]))
-                Pm = self.greedy(R_(1, 12), lambda c: self.ok_all(L, j, k, Py, [c], Pd))
-                if self.ok_all(L, j, k, [R_(1900, 2099)], Pm, Pd):
+                Pd = self.greedy(days, lambda c: self.ok_all(L, j, k, Py, Pm, [c], dext))
+                Pm = self.greedy(R_(1, 12), lambda c: self.ok_all(L, j, k, Py, [c], Pd, dext))
+                if self.ok_all(L, j, k, [R_(1900, 2099)], Pm, Pd, dext):
                     Py = [R_(1900, 2099)]
-                assert self.ok_all(L, j, k, Py, Pm, Pd)
+                assert self.ok_all(L, j, k, Py, Pm, Pd, dext)
                 certs.append((j, Py, Pm, Pd))
             out.append((li, row['template'], k, L, certs))
             print('layout %d %-22s accepted by regex %d; abstract texts per regex: %s' % (
-                li, row['template'], k, [len(a) * len(b) * len(c) for _, a, b, c in certs]), flush=True)
+                li, row['template'], k, [('pos:%d' % round(b[3])) if a == 'pos' else len(a) * len(b) * len(c) for _, a, b, c in certs]), flush=True)
         return out
 
 
@@ -140,26 +233,209 @@ HEAD = ('-- GENERATED by harness/lib/datefrontcert.py (committed; regenerate by 
         'set_option maxRecDepth 1000000\nnamespace RTV.DateFront.Ev\n'
         'open RTV.DateFront RTV.Gen.DateRegexEn RTV.Gen.DateLayoutsEn\n\n')
 
+HEADX = ('-- GENERATED by harness/lib/datefrontcert.py %(cul)s (committed; regenerate by hand when the date regexes change).\n'
+         'import RTV.Lemmas.DateFrontCoverX\nimport RTV.Gen.DateRegex%(suf)s\nimport RTV.Gen.DateLayouts%(suf)s\n'
+         'set_option maxRecDepth 1000000\nnamespace RTV.DateFront.Ev%(suf)s\n'
+         'open RTV.DateFront RTV.Gen.DateRegex%(suf)s RTV.Gen.DateLayouts%(suf)s\n\n')
 
-def main(budget=330):
-    g = Gen()
+
+ACC_SPLIT = 260     # abstract texts per acceptance theorem (other cultures; about 0.2 s of kernel time each)
+
+
+def lean_str(s):
+    return '[' + ', '.join(str(ord(ch)) for ch in s) + ']'
+
+
+PROPS = '''import RTV.Props.C06FrontX
+import RTV.Lemmas.DateFrontEv%(suf)sAll
+import RTV.Gen.DtMapsX1
+import RTV.Gen.DtMapsX2
+/-!
+# C06, front end — %(cul)s: from the TEXT of a date to TIMEX = value = that date, by theorem
+
+(Skeleton written by harness/lib/datefrontcert.py %(cul)s, witnesses by hand; see Props/C06FrontX.lean for the method.)
+`parse_basic_regex_match` of the %(lang)s configuration — the regenerated `date_regex` list (RTV/Gen/DateRegex%(suf)s.lean, %(nrx)d
+patterns, token prefix `%(prefix)s`) — applied to the text of a date in ANY layout of `contracts/C06.json["layouts"]["%(cul)s"]`
+(RTV/Gen/DateLayouts%(suf)s.lean; the day comes first: `5/12/2010` is 5 December) hands `match_to_date` the year / month / day
+the text was rendered from, and the entity is that date — every year 1900..2099 (digits symbolic), every month, every day.
+The evaluated part: RTV/Lemmas/DateFrontEv%(suf)s*.lean (acceptance: abstract texts; rejection by the earlier regexes: start
+position by start position).  `token_tables_%(low)s`: the month / day tokens of the layouts are keys of the regenerated
+`MonthOfYear` / `DayOfMonth` of the culture with the right numbers.
+-/
+namespace RTV.DateFront
+open RTV.Re RTV.Py RTV.DtRes RTV.Gen.DateRegex%(suf)s RTV.Gen.DateLayouts%(suf)s RTV.Gen.DtMaps
+
+/-- the month tokens (`3`, `03`, month name) / day tokens (with the literal suffix the day group takes along) of every layout
+are keys of the regenerated `MonthOfYear` / `DayOfMonth` of %(cul)s with that month / day -/
+theorem token_tables_%(low)s :
+    ((layouts%(suf)s.zip (Ev%(suf)s.dexts.take layouts%(suf)s.length)).all fun p =>
+      monthToksOK names%(suf)s monthOfYear_%(tab)s p.1 && dayToksOK names%(suf)s dayOfMonth_%(tab)s p.1 p.2 days31) = true := by
+  decide +kernel
+
+/-- every layout of the contract has its evaluated facts and its token checks -/
+theorem layouts_have_facts_%(low)s : ∀ L ∈ layouts%(suf)s, ∃ dext k,
+    LayoutFactsL names%(suf)s dateRegexes dateTokenPrefix days31 L dext k ∧
+    monthToksOK names%(suf)s monthOfYear_%(tab)s L = true ∧ dayToksOK names%(suf)s dayOfMonth_%(tab)s L dext days31 = true := by
+  intro L hL
+  simp only [layouts%(suf)s, List.mem_cons, List.mem_nil_iff, or_false] at hL
+  rcases hL with %(rfls)s
+%(cases)s
+/-- the contract has these layouts, and which regex accepts each -/
+theorem layouts_count_%(low)s : layouts%(suf)s.length = %(nlay)d ∧ Ev%(suf)s.acceptingRegex = [%(acc)s] := by decide
+
+/-- FRONT END → DECODE (%(cul)s): the groups the front end yields on a rendered date satisfy `Decodes` for that date. -/
+theorem front_decodes_%(low)s {T : Tables} (hT : LatinAgree T) {u : Uni} (hu : TextUni u) (L : List Tok) (hL : L ∈ layouts%(suf)s)
+    (y m d : Nat) (hy : 1900 ≤ y ∧ y ≤ 2099) (hm : 1 ≤ m ∧ m ≤ 12) (hd : 1 ≤ d ∧ d ≤ 31) :
+    ∃ h g, parseBasic T u dateTokenPrefix dateRegexes (renderL names%(suf)s L y m d) = some (some (h, g)) ∧
+      Decodes u (genCfg monthOfYear_%(tab)s dayOfMonth_%(tab)s) g y m d := by
+  obtain ⟨dext, k, hf, hmt, hdt⟩ := layouts_have_facts_%(low)s L hL
+  obtain ⟨h, g, hp, _, hdec⟩ := front_decodes_gen hT hu hf hmt hdt y m d hy hm ((mem_days31 d).2 hd)
+  exact ⟨h, g, hp, hdec⟩
+
+/-- C06 FOR THE TEXT (%(cul)s). A fully specified date `y-m-d`, 1900 ≤ y ≤ 2099, that exists in the calendar, written in ANY
+layout of the contract: `parse_basic_regex_match` on the regenerated regexes, `match_to_date`, `BaseDateParser.parse` and
+`_date_time_resolution` yield exactly one value of type `date` whose TIMEX and value are `YYYY-MM-DD` — for every reference
+`R`, every written-year oracle `wy`, every engine table that agrees with `latinTables` below 256. -/
+theorem front_abs_date_%(low)s {T : Tables} (hT : LatinAgree T) {u : Uni} (hu : TextUni u) (L : List Tok) (hL : L ∈ layouts%(suf)s)
+    (y m d : Nat) (hy : 1900 ≤ y ∧ y ≤ 2099) (hv : (⟨y, m, d⟩ : RTV.Cal.Date).valid = true) (wy : Int) (R : DT) :
+    frontResolve T u (genCfg monthOfYear_%(tab)s dayOfMonth_%(tab)s) dateTokenPrefix dateRegexes (renderL names%(suf)s L y m d) wy R =
+      .ok (some [{ timex := ymd y m d, type := sDate, value := some (ymd y m d) }]) := by
+  obtain ⟨dext, k, hf, hmt, hdt⟩ := layouts_have_facts_%(low)s L hL
+  exact front_abs_date_gen hT hu hf hmt hdt y m d hy hv (valid_day31 y m d hv) wy R
+
+/-- … with the tables of the running `regex` module -/
+theorem front_abs_date_engine_%(low)s {u : Uni} (hu : TextUni u) (L : List Tok) (hL : L ∈ layouts%(suf)s)
+    (y m d : Nat) (hy : 1900 ≤ y ∧ y ≤ 2099) (hv : (⟨y, m, d⟩ : RTV.Cal.Date).valid = true) (wy : Int) (R : DT) :
+    frontResolve RTV.Gen.reTables u (genCfg monthOfYear_%(tab)s dayOfMonth_%(tab)s) dateTokenPrefix dateRegexes
+        (renderL names%(suf)s L y m d) wy R =
+      .ok (some [{ timex := ymd y m d, type := sDate, value := some (ymd y m d) }]) :=
+  front_abs_date_%(low)s retables_latin hu L hL y m d hy hv wy R
+%(day1)s
+end RTV.DateFront
+'''
+
+DAY1 = '''
+/-- the layouts of the contract that are the text of day 1 only (`1er`) -/
+theorem layouts_have_facts_%(low)s_day1 : ∀ L ∈ layouts%(suf)sDay1, ∃ dext k,
+    LayoutFactsL names%(suf)s dateRegexes dateTokenPrefix [1] L dext k ∧
+    monthToksOK names%(suf)s monthOfYear_%(tab)s L = true ∧ dayToksOK names%(suf)s dayOfMonth_%(tab)s L dext [1] = true := by
+  intro L hL
+  simp only [layouts%(suf)sDay1, List.mem_cons, List.mem_nil_iff, or_false] at hL
+  rcases hL with %(rfls1)s
+%(cases1)s
+/-- C06 FOR THE TEXT (%(cul)s), first of the month written `1er`: every year 1900..2099, every month, day 1. -/
+theorem front_abs_date_%(low)s_day1 {T : Tables} (hT : LatinAgree T) {u : Uni} (hu : TextUni u) (L : List Tok)
+    (hL : L ∈ layouts%(suf)sDay1) (y m : Nat) (hy : 1900 ≤ y ∧ y ≤ 2099) (hm : 1 ≤ m ∧ m ≤ 12) (wy : Int) (R : DT) :
+    frontResolve T u (genCfg monthOfYear_%(tab)s dayOfMonth_%(tab)s) dateTokenPrefix dateRegexes (renderL names%(suf)s L y m 1) wy R =
+      .ok (some [{ timex := ymd y m 1, type := sDate, value := some (ymd y m 1) }]) := by
+  obtain ⟨dext, k, hf, hmt, hdt⟩ := layouts_have_facts_%(low)s_day1 L hL
+  have hv : (⟨y, m, 1⟩ : RTV.Cal.Date).valid = true := by
+    rw [RTV.Cal.valid_iff]
+    refine ⟨by simp only; omega, by simp only; omega, hm.1, hm.2, Nat.le_refl 1, ?_⟩
+    simp only [RTV.Cal.daysInMonth]; split <;> (try split) <;> omega
+  exact front_abs_date_gen hT hu hf hmt hdt y m 1 hy hv (by simp) wy R
+'''
+
+TABS = {'es-es': 'es', 'fr-fr': 'fr', 'pt-br': 'pt', 'de-de': 'de', 'it-it': 'it', 'nl-nl': 'nl'}
+LANG = {'es-es': 'Spanish', 'fr-fr': 'French', 'pt-br': 'Portuguese', 'de-de': 'German', 'it-it': 'Italian', 'nl-nl': 'Dutch'}
+
+
+def props_file(culture, suf, g, data, outdir=None):
+    """lean/RTV/Props/C06Front<Cul>.lean — written only when it does not exist (hand-written witnesses are added to it)"""
+    path = os.path.join(outdir or os.path.join(common.LEAN, 'RTV', 'Props'), 'C06Front%s.lean' % suf)
+    if os.path.exists(path):
+        return
+    reg = [(li, k) for li, tpl, k, L, certs in data if g.info[li][0] == R_(1, 31)]
+    one = [(li, k) for li, tpl, k, L, certs in data if g.info[li][0] != R_(1, 31)]
+    fill = {'suf': suf, 'cul': culture, 'low': suf.lower(), 'tab': TABS[culture], 'lang': LANG[culture], 'prefix': g.prefix,
+            'nrx': len(__import__('translate.dateregex', fromlist=['x']).collect(culture)['entries']),
+            'rfls': ' | '.join(['rfl'] * len(reg)), 'nlay': len(reg), 'acc': ', '.join(str(k) for _, _, k, _, _ in data),
+            'cases': ''.join('  · exact ⟨_, _, Ev%s.facts%d, by decide +kernel, by decide +kernel⟩\n' % (suf, li) for li, _ in reg),
+            'rfls1': ' | '.join(['rfl'] * len(one)),
+            'cases1': ''.join('  · exact ⟨_, _, Ev%s.facts%d, by decide +kernel, by decide +kernel⟩\n' % (suf, li) for li, _ in one)}
+    fill['day1'] = (DAY1 % fill) if one else ''
+    with open(path, 'w', encoding='utf-8') as f:
+        f.write(PROPS % fill)
+
+
+def main(budget=330, culture='en-us', outdir=None):
+    g = Gen(culture)
+    en = g.en
+    suf = '' if en else SUFFIX[culture]
     data = g.certificates()
     items = []     # (cost, text, layout, j, k)
+    joined = {}    # (layout, j) -> text for the All file: an acceptance certificate put together from its pieces
     for li, tpl, k, L, certs in data:
         mtok = [v for kk, v in L if kk == 'tok' and KIND[v] == 'm'][0]
         dtok = [v for kk, v in L if kk == 'tok' and KIND[v] == 'd'][0]
+        days, dext = g.info[li]
+        daysL = 'days31' if days == R_(1, 31) else '[%s]' % ', '.join(map(str, days))
         for j, Py, Pm, Pd in certs:
             nm = 'L%dR%d' % (li, j)
+            if Py == 'pos':
+                maxlen, tpos, ppos, cost = Pm
+                distinct = []
+                for combo in tpos + ppos:
+                    if combo not in distinct:
+                        distinct.append(combo)
+                t = '/-- layout %d `%s`, regex %d (rejects), start position by start position: %d + %d positions, %d distinct partitions -/\n' % (
+                    li, tpl, j, len(tpos), len(ppos), len(distinct))
+                for ci, (cy, cm, cd) in enumerate(distinct):
+                    t += 'def cert%sP%d : Cert :=\n  ⟨[%s],\n   [%s],\n   [%s]⟩\n' % (
+                        nm, ci, ', '.join(lean_astr(g.absof('y', c)) for c in cy), ', '.join(lean_astr(g.absof(mtok, c)) for c in cm),
+                        ', '.join(lean_astr(g.absof(dtok, c)) for c in cd))
+                t += 'def cert%s : PosCert :=\n  ⟨%d, [%s],\n   [%s],\n   [%s]⟩\n' % (
+                    nm, maxlen, ', '.join('cert%sP%d' % (nm, ci) for ci in range(len(distinct))),
+                    ', '.join(str(distinct.index(c)) for c in tpos), ', '.join(str(distinct.index(c)) for c in ppos))
+                t += 'theorem rej%s : rejPosB names%s dateRegexes dateTokenPrefix %d layout%d %s cert%s = true := by decide +kernel\n\n' % (
+                    nm, suf, j, li, daysL, nm)
+                items.append((cost, t, li, j, k))
+                continue
             t = '/-- layout %d `%s`, regex %d (%s): %d x %d x %d abstract texts -/\n' % (
                 li, tpl, j, 'accepts' if j == k else 'rejects', len(Py), len(Pm), len(Pd))
             t += 'def cert%s : Cert :=\n  ⟨[%s],\n   [%s],\n   [%s]⟩\n' % (
                 nm, ', '.join(lean_astr(g.absof('y', c)) for c in Py), ', '.join(lean_astr(g.absof(mtok, c)) for c in Pm),
                 ', '.join(lean_astr(g.absof(dtok, c)) for c in Pd))
-            t += 'theorem cover%s : coverB namesEn layout%d cert%s = true := by decide +kernel\n' % (nm, li, nm)
-            if j == k:
-                t += 'theorem acc%s : accAll dateRegexes dateTokenPrefix %d layout%d cert%s = true := by decide +kernel\n\n' % (nm, j, li, nm)
+            if en:
+                t += 'theorem cover%s : coverB namesEn layout%d cert%s = true := by decide +kernel\n' % (nm, li, nm)
+                if j == k:
+                    t += 'theorem acc%s : accAll dateRegexes dateTokenPrefix %d layout%d cert%s = true := by decide +kernel\n\n' % (nm, j, li, nm)
+                else:
+                    t += 'theorem rej%s : rejAll dateRegexes dateTokenPrefix %d layout%d cert%s = true := by decide +kernel\n\n' % (nm, j, li, nm)
             else:
-                t += 'theorem rej%s : rejAll dateRegexes dateTokenPrefix %d layout%d cert%s = true := by decide +kernel\n\n' % (nm, j, li, nm)
+                per = len(Py) * len(Pd)
+                if j == k and per * len(Pm) > ACC_SPLIT and len(Pm) > 1:
+                    # the month classes in pieces of at most ACC_SPLIT abstract texts; put together in DateFrontEv<Cul>All
+                    step = max(1, ACC_SPLIT // per)
+                    chunks = [Pm[a:a + step] for a in range(0, len(Pm), step)]
+                    for ci, ch in enumerate(chunks):
+                        cn = '%s%s' % (nm, chr(97 + ci))
+                        tt = '/-- layout %d `%s`, regex %d (accepts), piece %d of %d: %d x %d x %d abstract texts -/\n' % (
+                            li, tpl, j, ci + 1, len(chunks), len(Py), len(ch), len(Pd))
+                        tt += 'def cert%s : Cert :=\n  ⟨[%s],\n   [%s],\n   [%s]⟩\n' % (
+                            cn, ', '.join(lean_astr(g.absof('y', c)) for c in Py), ', '.join(lean_astr(g.absof(mtok, c)) for c in ch),
+                            ', '.join(lean_astr(g.absof(dtok, c)) for c in Pd))
+                        tt += 'theorem acc%s : accAllL dateRegexes dateTokenPrefix %d layout%d %s cert%s = true := by decide +kernel\n\n' % (
+                            cn, j, li, lean_str(dext), cn)
+                        items.append((per * len(ch), tt, li, j, k))
+                    names = ['%s%s' % (nm, chr(97 + ci)) for ci in range(len(chunks))]
+                    ms = 'cert%s.ms' % names[-1]
+                    proof = 'acc%s' % names[-1]
+                    for cn in reversed(names[:-1]):
+                        proof = 'accAllL_append _ _ _ _ _ cert%s.ys cert%s.ds _ _ acc%s (%s)' % (names[0], names[0], cn, proof)
+                        ms = 'cert%s.ms ++ (%s)' % (cn, ms)
+                    joined[(li, j)] = (
+                        'def cert%s : Cert := ⟨cert%s.ys, %s, cert%s.ds⟩\n' % (nm, names[0], ms, names[0]) +
+                        'theorem cover%s : coverBL names%s layout%d %s cert%s = true := by decide +kernel\n' % (nm, suf, li, daysL, nm) +
+                        'theorem acc%s : accAllL dateRegexes dateTokenPrefix %d layout%d %s cert%s = true :=\n  %s\n\n' % (
+                            nm, j, li, lean_str(dext), nm, proof))
+                    continue
+                t += 'theorem cover%s : coverBL names%s layout%d %s cert%s = true := by decide +kernel\n' % (nm, suf, li, daysL, nm)
+                if j == k:
+                    t += 'theorem acc%s : accAllL dateRegexes dateTokenPrefix %d layout%d %s cert%s = true := by decide +kernel\n\n' % (
+                        nm, j, li, lean_str(dext), nm)
+                else:
+                    raise AssertionError('whole-search rejection certificates are English only')
             items.append((len(Py) * len(Pm) * len(Pd) * (1 if j == k else 6), t, li, j, k))
     # cut into files of about `budget` cost units (an accepted abstract text = 1, a rejected one = 6: `search` walks every
     # start position of the text and of prefix + text)
@@ -172,38 +448,66 @@ def main(budget=330):
         cost += c
     if cur:
         files.append(cur)
-    lem = os.path.join(common.LEAN, 'RTV', 'Lemmas')
+    lem = outdir or os.path.join(common.LEAN, 'RTV', 'Lemmas')
     for f in os.listdir(lem):
-        if re.fullmatch(r'DateFrontEv(\d+|All)\.lean', f):
+        if re.fullmatch(r'DateFrontEv%s(\d+|All)\.lean' % suf, f):
             os.remove(os.path.join(lem, f))
+    head = HEAD if en else HEADX % {'cul': culture, 'suf': suf}
     for n, body in enumerate(files):
-        with open(os.path.join(lem, 'DateFrontEv%d.lean' % n), 'w', encoding='utf-8') as f:
-            f.write(HEAD + body + 'end RTV.DateFront.Ev\n')
+        with open(os.path.join(lem, 'DateFrontEv%s%d.lean' % (suf, n)), 'w', encoding='utf-8') as f:
+            f.write(head + body + 'end RTV.DateFront.Ev%s\n' % suf)
     # the table: per layout the accepting regex, the certificates and the facts about them
-    t = '-- GENERATED by harness/lib/datefrontcert.py (committed).\n'
-    t += ''.join('import RTV.Lemmas.DateFrontEv%d\n' % n for n in range(len(files)))
-    t += ('namespace RTV.DateFront.Ev\nopen RTV.DateFront RTV.Gen.DateRegexEn RTV.Gen.DateLayoutsEn\n\n'
-          '/-- the facts `front_all` needs for one layout: regex `k` accepts, the earlier ones reject -/\n'
-          'structure LayoutFacts (L : List Tok) (k : Nat) : Prop where\n'
-          '  rej : ∀ j, j < k → ∃ c : Cert, coverB namesEn L c = true ∧ rejAll dateRegexes dateTokenPrefix j L c = true\n'
-          '  acc : ∃ c : Cert, coverB namesEn L c = true ∧ accAll dateRegexes dateTokenPrefix k L c = true\n\n')
+    t = '-- GENERATED by harness/lib/datefrontcert.py%s (committed).\n' % ('' if en else ' ' + culture)
+    t += ''.join('import RTV.Lemmas.DateFrontEv%s%d\n' % (suf, n) for n in range(len(files)))
+    if en:
+        t += ('namespace RTV.DateFront.Ev\nopen RTV.DateFront RTV.Gen.DateRegexEn RTV.Gen.DateLayoutsEn\n\n'
+              '/-- the facts `front_all` needs for one layout: regex `k` accepts, the earlier ones reject -/\n'
+              'structure LayoutFacts (L : List Tok) (k : Nat) : Prop where\n'
+              '  rej : ∀ j, j < k → ∃ c : Cert, coverB namesEn L c = true ∧ rejAll dateRegexes dateTokenPrefix j L c = true\n'
+              '  acc : ∃ c : Cert, coverB namesEn L c = true ∧ accAll dateRegexes dateTokenPrefix k L c = true\n\n')
+    else:
+        t += ('namespace RTV.DateFront.Ev%s\nopen RTV.DateFront RTV.Gen.DateRegex%s RTV.Gen.DateLayouts%s\n\n' % (suf, suf, suf))
+    for key in sorted(joined):
+        t += joined[key]
     for li, tpl, k, L, certs in data:
-        t += '/-- `%s`: accepted by date_regex[%d] -/\ntheorem facts%d : LayoutFacts layout%d %d := by\n  refine ⟨fun j hj => ?_, ⟨certL%dR%d, coverL%dR%d, accL%dR%d⟩⟩\n' % (
-            tpl, k, li, li, k, li, k, li, k, li, k)
+        if en:
+            t += '/-- `%s`: accepted by date_regex[%d] -/\ntheorem facts%d : LayoutFacts layout%d %d := by\n  refine ⟨fun j hj => ?_, ⟨certL%dR%d, coverL%dR%d, accL%dR%d⟩⟩\n' % (
+                tpl, k, li, li, k, li, k, li, k, li, k)
+        else:
+            days, dext = g.info[li]
+            daysL = 'days31' if days == R_(1, 31) else '[%s]' % ', '.join(map(str, days))
+            t += ('/-- `%s`: accepted by date_regex[%d]%s -/\ntheorem facts%d : LayoutFactsL names%s dateRegexes dateTokenPrefix %s layout%d %s %d := by\n'
+                  '  refine ⟨fun j hj => ?_, ⟨certL%dR%d, coverL%dR%d, accL%dR%d⟩⟩\n') % (
+                tpl, k, (', the day group is the day token + `%s`' % dext) if dext else '', li, suf, daysL, li, lean_str(dext), k,
+                li, k, li, k, li, k)
         if k == 0:
             t += '  omega\n\n'
         else:
             t += '  match j, hj with\n'
             for j in range(k):
-                t += '  | %d, _ => exact ⟨certL%dR%d, coverL%dR%d, rejL%dR%d⟩\n' % (j, li, j, li, j, li, j)
+                if en:
+                    t += '  | %d, _ => exact ⟨certL%dR%d, coverL%dR%d, rejL%dR%d⟩\n' % (j, li, j, li, j, li, j)
+                else:
+                    t += '  | %d, _ => exact ⟨certL%dR%d, rejL%dR%d⟩\n' % (j, li, j, li, j)
             t += '\n'
-    t += '/-- accepting regex of every layout of the contract, in the order of `layoutsEn` -/\n'
+    t += '/-- accepting regex of every layout of the contract, in the order of `layouts%s`%s -/\n' % (
+        'En' if en else suf, '' if en else ' ++ `layouts%sDay1`' % suf)
     t += 'def acceptingRegex : List Nat := [%s]\n\n' % ', '.join(str(k) for _, _, k, _, _ in data)
-    t += 'end RTV.DateFront.Ev\n'
-    with open(os.path.join(lem, 'DateFrontEvAll.lean'), 'w', encoding='utf-8') as f:
+    if not en:
+        t += ('/-- per layout (same order): the literal characters after the day token that belong to the day group -/\n'
+              'def dexts : List (List Nat) := [%s]\n\n' % ', '.join(lean_str(g.info[li][1]) for li, *_ in data))
+        props_file(culture, suf, g, data, outdir)
+    t += 'end RTV.DateFront.Ev%s\n' % suf
+    with open(os.path.join(lem, 'DateFrontEv%sAll.lean' % suf), 'w', encoding='utf-8') as f:
         f.write(t)
-    print('%d evaluation files, %d cost units' % (len(files), sum(c for c, *_ in items)))
+    print('%s: %d evaluation files, %d cost units' % (culture, len(files), sum(c for c, *_ in items)))
 
 
 if __name__ == '__main__':
-    main()
+    import sys
+    args = sys.argv[1:]
+    budget = 330
+    if args and args[0].startswith('--budget='):
+        budget = int(args.pop(0).split('=')[1])
+    for cul in (args or ['en-us']):
+        main(budget=budget, culture=cul)
